@@ -17,7 +17,10 @@ Inductive case :=
 | CCqm (vt : vartype) (raw items : hpoly) (cons : list cons3) (n : nat) (base_obj : option obs) (obj : obs)
        (constraints : list (obs * bool * Qc))
 | CHoc (raw : hpoly) (cons : list cons3) (check_flags : bool) (vars : list label)
-       (rows : list (list Qc * Qc * bool)).
+       (rows : list (list Qc * Qc * bool))
+(* the rows the child sampler returned and the rows HigherOrderComposite returned, in order *)
+| CHocFull (raw : hpoly) (cons : list cons3) (discard : bool) (vars_child vars_out : list label)
+           (child_rows : list (list Qc)) (out_rows : list (list Qc * Qc * bool)).
 
 Definition input_ok (vt : vartype) (raw items : hpoly) : bool :=
   hpoly_eqb (normalise vt raw) items && terms_nodup items.
@@ -62,4 +65,8 @@ Definition check (c : case) : bool :=
                  let a := sample_of_list (combine vars vals) in
                  (length vals =? length vars)%nat && Qc_eqb (henergy raw a) en
                  && (negb check_flags || Bool.eqb flag (consistentb cs a))) rows
+  | CHocFull raw cs discard vc vo child_rows out_rows =>
+      list_eqb (fun x y => list_eqb Qc_eqb (fst (fst x)) (fst (fst y)) && Qc_eqb (snd (fst x)) (snd (fst y))
+                           && Bool.eqb (snd x) (snd y))
+        (polymorph_rows raw cs discard vc vo child_rows) out_rows
   end.
